@@ -27,6 +27,7 @@ Exp == [
     d1     |-> <<49>>,                      \* "1"
     d07    |-> <<48, 55>>,                  \* "07"
     d0     |-> <<48>>,                      \* "0"
+    d2 |-> <<50>>, d3 |-> <<51>>, d4 |-> <<52>>, d5 |-> <<53>>, d6 |-> <<54>>, d7 |-> <<55>>, d8 |-> <<56>>, d9 |-> <<57>>,
     PLUS   |-> <<43>>,
     MINUS  |-> <<45>>,
     dat    |-> <<100, 97, 116>>,            \* look-alikes
@@ -54,7 +55,7 @@ Tokens == DOMAIN Exp \cup DOMAIN Fill
 
 Specials   == {"LF", "CR", "COLON", "SP", "NUL", "BOM"}
 NameTokens == {"data", "id", "event", "retry"}
-DigitTokens == {"d1", "d07", "d0"}
+DigitTokens == {"d1", "d07", "d0", "d2", "d3", "d4", "d5", "d6", "d7", "d8", "d9"}
 RunTokens  == Tokens \ Specials
 
 TokLen(t) == IF t \in DOMAIN Exp THEN Len(Exp[t]) ELSE Fill[t]
@@ -80,6 +81,8 @@ ASSUME \A t \in DOMAIN Exp : IF t \in DigitTokens
                              ELSE \A i \in 1..Len(Exp[t]) : Exp[t][i] \notin 48..57
 \* the BOM is exactly EF BB BF and the partial BOM is a strict prefix of it
 ASSUME Exp["BOM"] = Exp["EFBB"] \o <<191>>
+\* no token starts with the last byte of the BOM, so a partial BOM never completes across tokens
+ASSUME \A t \in DOMAIN Exp : Exp[t][1] # 191
 \* fillers contain only the byte 97, which is none of the above
 ASSUME \A f \in DOMAIN Fill : Fill[f] > 0
 
